@@ -234,6 +234,127 @@ func c10Purity(r *engine.Run) {
 		}
 	}
 	r.Bound(fmt.Sprintf("purity: %d trees × every item box as query × 4 search ops, each twice, structure re-observed through the verif hook", len(trees)))
+	// construction is an operation too: loading the same items again (with loads of other sizes in
+	// between, so that any state surviving a load is in a different phase) gives a tree with the same
+	// observable value, i.e. the same visit sequence for every search
+	visitAll := func(t *rtree.RTree) string {
+		var ids []int
+		big := rtree.Box{MinX: -1e300, MinY: -1e300, MaxX: 1e300, MaxY: 1e300}
+		_ = t.RangeSearch(big, func(id int) error { ids = append(ids, id); return nil })
+		ids = append(ids, -1)
+		_ = t.PrioritySearch(rtree.Box{}, func(id int) error { ids = append(ids, id); return nil })
+		return fmt.Sprint(ids)
+	}
+	loads := 0
+	for fam := range c11Families {
+		for _, n := range []int{1, 4, 5, 6, 9, 16, 17, 23, 64, 100} {
+			boxes := c11Families[fam].gen(n)
+			mk := func() *rtree.RTree {
+				items := make([]rtree.BulkItem, len(boxes))
+				for i, b := range boxes {
+					items[i] = rtree.BulkItem{Box: b, RecordID: i}
+				}
+				return rtree.BulkLoad(items)
+			}
+			first := visitAll(mk())
+			for rep := 0; rep < 3; rep++ {
+				other := make([]rtree.BulkItem, 5+rep*7)
+				for i := range other {
+					other[i] = rtree.BulkItem{Box: rtree.Box{MinX: float64(i * 3 % 7), MinY: float64(i), MaxX: float64(i*3%7 + 1), MaxY: float64(i + 2)}, RecordID: i}
+				}
+				rtree.BulkLoad(other)
+				loads++
+				r.Transitions.Add(2)
+				r.Evaluations.Add(1)
+				if again := visitAll(mk()); again != first {
+					r.Violation("C10/determinism.bulkLoadAgainDiffers", "purity", c10Case{Op: "BulkLoad", A: fmt.Sprintf("family %d, %d items, repetition %d", fam, n, rep)}, "the same items loaded again give a tree whose searches visit in a different order")
+					break
+				}
+			}
+		}
+	}
+	r.Bound(fmt.Sprintf("determinism of construction: %d layout families × 10 sizes loaded again 3 times with other loads in between (%d comparisons of complete visit sequences)", len(c11Families), loads))
+	// the same for geometries: an operand decoded again from its own WKB is the same value, so every
+	// unary operation gives the same answer on the copy after unrelated work (state surviving between calls)
+	for _, g := range ops {
+		cp, err := geom.UnmarshalWKB(g.AsBinary(), geom.NoValidate{})
+		if err != nil {
+			continue
+		}
+		for _, u := range C10Unary {
+			a := safeStr(func() string { return u.Fn(g) })
+			safeStr(func() string { return C10Unary[0].Fn(ops[len(ops)/2]) })
+			b := safeStr(func() string { return u.Fn(cp) })
+			r.Transitions.Add(2)
+			r.Evaluations.Add(1)
+			if a != b {
+				r.Violation("C10/determinism.copyDiffers:"+u.Name, "purity", c10Case{Op: u.Name, A: g.AsText()}, a+" vs "+b)
+			}
+		}
+	}
+	// decoding is an operation whose argument is a buffer: decoding the same buffer again gives the
+	// same value, and the buffer is what it was (both byte orders for WKB, every element big endian
+	// or only some)
+	decodes := 0
+	for _, g := range ops {
+		node := refcodec.Describe(g)
+		ne := node.NumElements()
+		var orderSets [][]bool
+		all := make([]bool, ne)
+		alt := make([]bool, ne)
+		for i := range all {
+			all[i], alt[i] = true, i%2 == 1
+		}
+		orderSets = append(orderSets, nil, all, alt)
+		type buf struct {
+			name string
+			b    []byte
+			dec  func([]byte) string
+		}
+		var bufs []buf
+		wkbDec := func(b []byte) string {
+			x, err := geom.UnmarshalWKB(b, geom.NoValidate{})
+			return fmt.Sprint(snap(x), err)
+		}
+		for _, o := range orderSets {
+			b, _ := refcodec.WKB(node, o)
+			bufs = append(bufs, buf{"UnmarshalWKB", b, wkbDec})
+			bufs = append(bufs, buf{"Geometry.Scan", append([]byte{}, b...), func(b []byte) string {
+				var x geom.Geometry
+				err := x.Scan(b)
+				return fmt.Sprint(snap(x), err)
+			}})
+		}
+		if tw, err := geom.MarshalTWKB(g, 0); err == nil {
+			bufs = append(bufs, buf{"UnmarshalTWKB", tw, func(b []byte) string {
+				x, err := geom.UnmarshalTWKB(b, geom.NoValidate{})
+				return fmt.Sprint(snap(x), err)
+			}})
+		}
+		if js, err := g.MarshalJSON(); err == nil {
+			bufs = append(bufs, buf{"UnmarshalJSON", js, func(b []byte) string {
+				var x geom.Geometry
+				err := x.UnmarshalJSON(b)
+				return fmt.Sprint(snap(x), err)
+			}})
+		}
+		for _, bf := range bufs {
+			keep := append([]byte{}, bf.b...)
+			a := safeStr(func() string { return bf.dec(bf.b) })
+			b := safeStr(func() string { return bf.dec(bf.b) })
+			decodes++
+			r.Transitions.Add(2)
+			r.Evaluations.Add(1)
+			if a != b {
+				r.Violation("C10/determinism.secondDecodeDiffers:"+bf.name, "purity", c10Case{Op: bf.name, A: g.AsText()}, a+" vs "+b)
+			}
+			if string(keep) != string(bf.b) {
+				r.Violation("C10/purity.inputBufferWritten:"+bf.name, "purity", c10Case{Op: bf.name, A: g.AsText()}, "the caller's buffer was modified by decoding it")
+			}
+		}
+	}
+	r.Bound(fmt.Sprintf("determinism of decoding: %d buffers (WKB little / big / mixed endian, through UnmarshalWKB and Scan; TWKB; GeoJSON) decoded twice, buffer re-observed", decodes))
+	r.Bound(fmt.Sprintf("determinism across copies: %d unary ops on each operand and on its WKB round-trip copy with unrelated work in between", len(C10Unary)))
 	r.Sample("purity", c10Case{Op: "Densify then Summary", A: ops[5].AsText()})
 }
 
